@@ -152,7 +152,7 @@ theorem ev_recvDone {V : Variant} {v1 : Bool} {sS sR : List Bytes} {s : State} {
     (hfr : ∀ b ∈ evArr (.recvDone p r), b ∉ sR)
     (hA' : All V (stepLive V s (.recvDone p r)).1) :
     R' V v1 sS (sR ++ evArr (.recvDone p r)) (stepLive V s (.recvDone p r)).1
-      (pairStep j (.recvDone p r) (stepLive V s (.recvDone p r)).2) := by
+      (pairStepOld j (.recvDone p r) (stepLive V s (.recvDone p r)).2) := by
   have hmono : ∀ {s' : State} {j' : PairJ}, R' V v1 sS sR s' j' → R' V v1 sS (sR ++ evArr (.recvDone p r)) s' j' :=
     fun h => ⟨R_mono (fun _ h => h) (fun _ h => List.mem_append_left _ h) h.1, h.2⟩
   simp only [stepLive] at hA' ⊢
